@@ -57,7 +57,8 @@ K16  == "\"aaaaaaaaaaaaaa\""                                       \* a 16-colum
 K42  == "\"aaaaaaaaaaaaaaaaaaaaaaaaaaaaaaaaaaaaaaaa\""             \* a 42-column key (> 40: exprList's smallSize)
 ExtraLits == {"\"p${x}q\"", "`> a, b\n x`", RawP, EscS, K16, K42}
 \* Syntax!MustSep extended to the extra literals (a word glued to a literal would be one token / a domain text literal)
-LMustSep(p, s) == MustSep(p, s) \/ (p \in Words /\ s \in ExtraLits) \/ (p \in ExtraLits /\ s \in Words)
+NewLits == {RawP, EscS, K16, K42}     \* (the two sample literals are glued to their neighbours on purpose)
+LMustSep(p, s) == MustSep(p, s) \/ (p \in Words /\ s \in NewLits) \/ (p \in NewLits /\ s \in Words)
 Call0 == CallF(<<>>)
 Pool == LET all == <<A, Bin("+", A, Bb), CallF(<<A>>), N("ErrWrapExpr", "!", <<Call0>>)>>
         IN {all[i] : i \in 1..PoolN}
